@@ -109,11 +109,40 @@ def analyse(recs):
         if rec['status'] != 'done' or not rec['result']:
             hangs.append(rec)
             continue
-        msg, k = oracle(rec)
+        msg, k = oracle_setter_history(rec) if rec['scenario'].get('family') == 'setter_history' else oracle(rec)
         n += k
         if msg:
             bad.append((rec, msg))
     return bad, hangs, n
+
+
+def gen_setter_history(rng, k, sms):
+    """kept-alive workers, the extras are changed through the setters BETWEEN calls (every combination of old and new
+    values over a few scenarios): the next call must already pass the new layout"""
+    a, b, c = rng.random() < 0.5, rng.random() < 0.4, rng.random() < 0.5
+    pool = {'n_jobs': rng.choice([1, 2, 3]), 'start_method': sms[k % len(sms)], 'keep_alive': True, 'pass_worker_id': a, 'use_worker_state': c}
+    if b:
+        pool['shared_objects'] = ['s', 0]
+    calls = []
+    for j in range(rng.choice([3, 4])):
+        calls.append({'kind': rng.choice(['map', 'map_unordered', 'imap', 'imap_unordered']), 'n': rng.choice([3, 8]), 'input': 'list',
+                      'elem': rng.choice(['scalar', 'tuple']), 'params': {'chunk_size': rng.choice([1, 2])}, 'base': 1000 * (j + 1)})
+        which = rng.choice(['set_use_worker_state', 'set_use_worker_state', 'pass_on_worker_id', 'set_shared_objects'])
+        arg = (rng.choice([None, ['s', j + 1], 0]) if which == 'set_shared_objects' else rng.random() < 0.5)
+        calls.append({'kind': 'setter', 'name': which, 'args': [arg]})
+    calls.append({'kind': 'stop_and_join'})
+    return S.annotate_history({'id': f'as{k}', 'pool': pool, 'calls': calls, 'budget': 60, 'family': 'setter_history'})
+
+
+def oracle_setter_history(rec):
+    for cl, out in zip(rec['scenario']['calls'], rec['result']['calls']):
+        if out.get('outcome') != 'ok':
+            return f"call {cl.get('kind')} base={cl.get('base')} after a setter raised {out['exc']['type']}: {out['exc']['args'][:160]}", 0
+        if 'n' in cl:
+            msg = S.check_value(cl, out)
+            if msg:
+                return f"call base={cl['base']} after a setter: {msg}", 0
+    return None, 1
 
 
 def run(ctx):
@@ -121,6 +150,7 @@ def run(ctx):
     t0 = time.time()
     proof = build_props('C13', GROUPS)
     scens = gen(rng, 48 if ctx['tier'] == 'quick' else 400, ctx['tier'])
+    scens += [gen_setter_history(rng, k, ['fork', 'threading', 'fork', 'forkserver']) for k in range(16 if ctx['tier'] == 'quick' else 120)]
     recs = runner.run_many(scens, 'c13', jobs=10)
     bad, hangs, n_ev = analyse(recs)
     out_v = []
